@@ -134,7 +134,14 @@ def run(ctx):
                         return None
                     dev.inject_status = inject
                 args = [(r.text, r.value) for r in reqs]
+                import copy
+                before_vals = [copy.deepcopy(v) if isinstance(v, (list, dict)) else None for _, v in args]
                 st, out = sc.b.call("write", sc.drv.write, *args) if len(args) > 1 or rng.random() < 0.5 else sc.b.call("write", sc.drv.write, args[0][0], args[0][1])
+                for (txt_, v_), snap_ in zip(args, before_vals):   # the caller's value objects come back unchanged
+                    if snap_ is not None and v_ != snap_:
+                        res.ev()
+                        res.violation("write-modified-the-callers-value", f"write(({txt_!r}, <{type(v_).__name__} of {len(snap_)}>)) left the caller's object as {v_!r:.100} (was {snap_!r:.100})", {"request": txt_})
+                        break
                 dev.inject_status = None
                 if fired:
                     dev.write_transfers.clear()
@@ -306,6 +313,23 @@ def run(ctx):
                     res.count(f"service:{e['kind']}{'-embedded' if e.get('embedded') else ''}")
                 if pi == 0 and ci < 3:
                     res.sample({"config": sc.label, "writes": [(r.text, r.value) for r in reqs][:3], "journal": [(e["kind"], e["tag"], e["offset"], e["len"]) for e in journal][:6]})
+            # ---- values that have no encoding in the destination type: "success" could only mean that something else was written.
+            # A non-integral float for an integer tag (3.7 is not 3), a float beyond the type's range: the write must not report
+            # success and the controller's memory must stay as it was.
+            ints = [t for t in prj.user_tags() if t.dtype.kind == "atomic" and t.dtype.name in logixreq.rpj.INT_ATOMS and not t.dims]
+            for t in rng.sample(ints, min(3, len(ints))):
+                badv = rng.choice([3.7, -0.5, 0.1, 1e30, -2.5e19, float("nan"), float("inf")])
+                mem_before = bytes(t.data)
+                dev.write_journal.clear()
+                st, out = sc.b.call("write", sc.drv.write, t.full_name, badv)
+                res.ev()
+                res.seen("no-encoding", t.dtype.name, "nan" if badv != badv else "inf" if badv in (float("inf"),) else "frac" if abs(badv) < 100 else "huge", sc.label)
+                if bytes(t.data) != mem_before:
+                    res.violation("value-without-encoding-changed-memory", f"write({t.full_name!r}, {badv!r}) to a {t.dtype.name} changed the controller's memory from {mem_before.hex()} to {bytes(t.data).hex()} ({sc.label})", {"tag": t.full_name})
+                    t.data[:] = mem_before
+                elif st == "ok" and out:
+                    res.violation("value-without-encoding-reported-success", f"write({t.full_name!r}, {badv!r}) to a {t.dtype.name} reported success: {out!r:.160} ({sc.label})", {"tag": t.full_name})
+                dev.write_journal.clear()
             sc.close()
         except ScenarioDead:
             continue
